@@ -12,7 +12,8 @@ WATCHED = {"time", "socket", "threading", "multiprocessing", "subprocess", "os",
 COVERED = {
     "time": {"time_ns": "virtual clock", "time": "virtual clock", "sleep": "kernel sleep", "monotonic_ns": "virtual clock", "perf_counter_ns": "virtual clock",
              "monotonic": "virtual clock", "perf_counter": "virtual clock"},
-    "socket": {"socket": "UDP fake", "AF_INET": "const", "SOCK_DGRAM": "const", "gethostname": "pure name lookup, constant per run", "getfqdn": "pure name lookup, constant per run"},
+    "socket": {"socket": "UDP fake", "AF_INET": "const", "SOCK_DGRAM": "const", "gethostname": "pure name lookup, constant per run", "getfqdn": "pure name lookup, constant per run",
+               "timeout": "exception type (fake UDP sockets honour settimeout)"},
     "threading": {"local": "thread-local (each simulated process is a thread)", "Lock": "SimLock in cascade.shm.dataset"},
     "multiprocessing": {"get_context": "SimProcess", "shared_memory": "segment namespace fake", "shared_memory.SharedMemory": "segment namespace fake",
                         "resource_tracker": "no-op", "resource_tracker.unregister": "no-op", "process": "type only", "process.BaseProcess": "type only",
